@@ -12,7 +12,7 @@ from checks import _pathspace as ps
 ID = "C19"
 TITLE = "Turning on debug logging does not change results"
 MANIFEST = {
-    "text": "Every input of the slice (all graphs on 2-3 placed nodes in both alphabets, twelve named 4-5 node graphs; traces of length <= 3 "
+    "text": "Every input of the slice (all graphs on 2-3 placed nodes in both alphabets, 26 named 4-12 node graphs; traces of length <= 3 "
             "incl. an outlier) x 14 configurations (3 families x non-emitting on/off x cut-offs that reject first / later candidates x "
             "widths) is matched by the real code at the default level and at level DEBUG, once with a StringIO stream handler and once "
             "with only a NullHandler attached to the package logger: the return value (type included), the canonical result and the "
@@ -20,6 +20,8 @@ MANIFEST = {
     "note": "Trusted: the comparison. DEBUG is switched on the package logger exactly as the documentation recommends.",
     "technique": "bounded-exhaustive differential enumeration: every input executed at both log levels and compared",
 }
+MANIFEST["text"] += " " + (
+    'Added after the seeding waves: on the named graphs all spanning traces (pairs and jumping triples) with eight non-emitting configurations incl. widths 2-3 and a tight max_dist, which is where the DEBUG-only code paths (stopped candidates inside the non-emitting search and in pruning) are reached; this found D20 and D21.')
 BUDGET = {"quick": 480, "thorough": 3000}
 RULE = ("states = (input, configuration) triples of runs (default, DEBUG+stream handler, DEBUG+null handler), transitions = matcher "
         "executions, traces validated = DEBUG results compared with the default result; non-trivial = under DEBUG the lattice contains at "
